@@ -1,0 +1,7 @@
+//go:build !verif
+
+package jsonrpc
+
+// vhook is a no-op unless the library is built with the `verif` build tag
+// (see verif_on.go). Call sites are plain calls to this empty function.
+func vhook(c *wsConn, point string, arg interface{}) {}
